@@ -58,12 +58,48 @@ impl Hist {
     }
 }
 
+/// the exactness precondition of the dyadic-spike stage, checked on the case ITSELF (a shrunk or hand-edited case that
+/// leaves the class is judged with the ordinary tolerances): periods 1, 2, 4, 8; every input an integer below 2^22 in
+/// magnitude (means are multiples of 2^-3, Welford products multiples of 2^-6 below 2^47: fewer than 53 bits); and the
+/// first `period` inputs small (|x| <= 8), so that the inexact warm-up divisions by 3, 5, 6, 7 happen at the small scale
+fn dyadic_ok(case: &Case) -> bool {
+    let n = case.ps.first().copied().unwrap_or(0);
+    if ![1usize, 2, 4, 8].contains(&n) {
+        return false;
+    }
+    let xs: Vec<f64> = case.ops.iter().filter_map(|o| if let Op::Next(x) = o { Some(*x) } else { None }).collect();
+    if xs.len() < n || case.ops.iter().any(|o| matches!(o, Op::Bar(_))) {
+        return false;
+    }
+    xs.iter().all(|x| x.fract() == 0.0 && x.abs() < 4194304.0) && xs[..n].iter().all(|x| x.abs() <= 8.0)
+}
+
 /// outputs of the full-history instance (`oa`) vs the fresh suffix-only instance (`of`) at suffix length `j1`
 fn agree(case: &Case, oa: &[f64], of: &[f64], judged: &[Option<super::c03::Judged>], cref: &super::c03::Ref, h: &Hist, j1: usize) -> Option<Failure> {
     let name = case.ind.as_str();
     let exact = matches!(name, "Minimum" | "Maximum" | "FastStochastic");
     let (big, t) = (h.big, h.t);
-    let dyadic = case.kind == "dyadic-spike";
+    let dyadic = case.kind == "dyadic-spike" && dyadic_ok(case);
+    if dyadic && (name == "StandardDeviation" || name == "BollingerBands") {
+        // second moments are compared as VARIANCES: the inexact warm-up divisions (by 3, 5, 6, 7) leave a residue of
+        // 1e-16 in m2, which the square root turns into 1e-8 on a flat window
+        let lin = 1e-9 * cref.big.max(1.0);
+        let quad = 1e-9 * (cref.big * cref.big).max(1.0);
+        let (va, vf, mids) = if name == "StandardDeviation" {
+            (oa[0] * oa[0], of[0] * of[0], None)
+        } else {
+            let (ha, hf) = ((oa[1] - oa[2]) / 2.0, (of[1] - of[2]) / 2.0);
+            (ha * ha, hf * hf, Some(((oa[0], of[0]), ((oa[1] + oa[2]) / 2.0, (of[1] + of[2]) / 2.0))))
+        };
+        let mut ok = (va - vf).abs() <= quad;
+        if let Some(((a0, f0), (am, fm))) = mids {
+            ok = ok && (a0 - f0).abs() <= lin && (am - fm).abs() <= lin;
+        }
+        if !ok {
+            return fail(case, "remembers-old-input", format!("suffix step {} (t={}): after the full history outputs = {:?}, a fresh instance fed only the last {} inputs gives {:?} (exact-arithmetic class: second moments compared as variances at 1e-9 of the suffix scale)", j1, h.t, oa, j1, of));
+        }
+        return None;
+    }
     for (q, (x, y)) in oa.iter().zip(of.iter()).enumerate() {
         let ok = if exact {
             x == y || (x.is_nan() && y.is_nan())
@@ -309,7 +345,7 @@ pub fn generate(r: &mut Runner) {
         }
         r.run(c, plen > 0);
     }
-    // stage 2b: dyadic spikes — integer prices 1..8, periods 1, 2, 4, 8, a prefix containing spikes of 2^20..2^24 (10^6 times the
+    // stage 2b: dyadic spikes — integer prices 1..8, periods 1, 2, 4, 8, a prefix containing spikes of 2^18..3·2^20 (10^6 times the
     // later prices), then an integer suffix: Welford / running sums are EXACT there, so state that remembers the spike
     // (a floor, a scale, a clamp sized from the all-time magnitude) shows at the suffix's own rounding level
     for i in 0..(if r.tier == Tier::Quick { 240 } else { 6000 }) {
@@ -324,14 +360,16 @@ pub fn generate(r: &mut Runner) {
             c.ops.push(Op::Next(r.rng.range(1, 8) as f64));
         }
         for _ in 0..r.rng.range(3, 40) {
-            let x = if r.rng.chance(0.3) { (r.rng.range(1, 3) as f64) * (1u64 << r.rng.range(20, 22)) as f64 * if r.rng.chance(0.5) { 4.0 } else { 1.0 } } else { r.rng.range(1, 8) as f64 };
+            let x = if r.rng.chance(0.3) { (r.rng.range(1, 3) as f64) * (1u64 << r.rng.range(18, 20)) as f64 } else { r.rng.range(1, 8) as f64 };
             c.ops.push(Op::Next(x));
         }
-        c.ops.push(Op::Next((1u64 << 23) as f64));
+        c.ops.push(Op::Next(3.0 * (1u64 << 20) as f64));
         c.ops.push(Op::Mark);
-        let two = [r.rng.range(1, 8) as f64, r.rng.range(1, 8) as f64];
-        for j in 0..mem + r.rng.below(2 * n + 5) {
-            c.ops.push(Op::Next(if r.rng.chance(0.5) { two[j % 2] } else { r.rng.range(1, 8) as f64 }));
+        // a QUIET suffix (one level, an occasional +1: second moments of a fraction of a unit) in two thirds of the cases
+        let level = r.rng.range(1, 7) as f64;
+        let quiet = r.rng.chance(0.67);
+        for _ in 0..mem + r.rng.below(2 * n + 5) {
+            c.ops.push(Op::Next(if quiet { level + if r.rng.chance(0.15) { 1.0 } else { 0.0 } } else { r.rng.range(1, 8) as f64 }));
         }
         r.run(c, true);
     }
@@ -405,4 +443,4 @@ pub fn generate(r: &mut Runner) {
     }
 }
 
-pub const RULE: &str = "stage 1 (exact ties): periods 1..=4, every sequence of length 7 (quick) / 9 (thorough) over three symbols, split into an arbitrary prefix and a suffix of memory+1 inputs; stage 1b: the same over the signed alphabets {1,-3,2} (sums cancel exactly), {-1,-3,-2} (every window all-negative with distinct values) and {-2,0,3} for SMA, WMA, SD, MAD, Min, Max, BB; stage 2: 12 windowed indicators × periods 1..=4 (a third) and sampled to 128 × an arbitrary prefix (0..300 / 0..2000 inputs, half of them with every 7th value ×10^6) followed by a common suffix of at least n (n+1 for ROC, ER, MFI) inputs; for the 7 indicators that accept any sign the scalar streams are, a third each, positive, of any sign (shifted around zero / signed alphabet) and negated as a whole (all-negative windows); stage 3 (hidden update counters): every indicator × every round count N (powers of two 2^10..2^17 quick / ..2^22 thorough, and 10^3, 5·10^3, 10^4, … up to that limit) × two placements of a long prefix regenerated from a stored seed in chunks of 1..8192 inputs of freshly drawn regimes — A: N+d inputs (d <= memory+2) before the suffix (the N-th update lies in the prefix), B: N−d inputs (2 <= d <= memory+2) before a suffix longer than memory+d (the N-th update happens inside the common suffix and the steps right after it are compared) — with periods to 128, three quarters of them coprime to 10 (dividing no round count, so the ring cursor is not at slot 0 there; the rest includes powers of two), sign modes as in stage 2; all A and half of the B histories are calm (prefix chunks and suffix from walk/alt/saw only: no outliers and no flat stretches, so that tau(t)·M stays below the differences between neighbouring inputs and an ordinary input remembered, mis-ordered or mis-weighted is observable), the other B histories are wild (any regime per chunk, every 7th prefix value ×10^6, non-flat suffix). In all stages the instance that saw the whole history is compared with a fresh instance fed only the suffix at every suffix length from n (n+1) on: exactly for Minimum, Maximum, FastStochastic; tau(t)·M for the accumulating ones (sqrt(tau)·M on the SD scale), × the condition number of the suffix reference for ratios (gate 1e6). Non-trivial = non-empty prefix. Stage 2b (dyadic spikes): 240 (quick) / 6000 streams of integer prices 1..8 for SMA, WMA, SD, MAD, BB, ROC, ER with periods 1, 2, 4, 8, the prefix containing spikes of 2^20..2^24 and ending in one of 2^23, the suffix integer again: the long-lived instance's arithmetic is exact there, so both outputs must agree to 1e-9 of the SUFFIX magnitude (state sized from the all-time magnitude shows). Stage 2c (micro-drift bars): 120 / 3000 streams of one-price bars creeping by 1..9e-10 relative per bar with varying volume, periods 1..6, for MFI, CCI, FastStochastic.";
+pub const RULE: &str = "stage 1 (exact ties): periods 1..=4, every sequence of length 7 (quick) / 9 (thorough) over three symbols, split into an arbitrary prefix and a suffix of memory+1 inputs; stage 1b: the same over the signed alphabets {1,-3,2} (sums cancel exactly), {-1,-3,-2} (every window all-negative with distinct values) and {-2,0,3} for SMA, WMA, SD, MAD, Min, Max, BB; stage 2: 12 windowed indicators × periods 1..=4 (a third) and sampled to 128 × an arbitrary prefix (0..300 / 0..2000 inputs, half of them with every 7th value ×10^6) followed by a common suffix of at least n (n+1 for ROC, ER, MFI) inputs; for the 7 indicators that accept any sign the scalar streams are, a third each, positive, of any sign (shifted around zero / signed alphabet) and negated as a whole (all-negative windows); stage 3 (hidden update counters): every indicator × every round count N (powers of two 2^10..2^17 quick / ..2^22 thorough, and 10^3, 5·10^3, 10^4, … up to that limit) × two placements of a long prefix regenerated from a stored seed in chunks of 1..8192 inputs of freshly drawn regimes — A: N+d inputs (d <= memory+2) before the suffix (the N-th update lies in the prefix), B: N−d inputs (2 <= d <= memory+2) before a suffix longer than memory+d (the N-th update happens inside the common suffix and the steps right after it are compared) — with periods to 128, three quarters of them coprime to 10 (dividing no round count, so the ring cursor is not at slot 0 there; the rest includes powers of two), sign modes as in stage 2; all A and half of the B histories are calm (prefix chunks and suffix from walk/alt/saw only: no outliers and no flat stretches, so that tau(t)·M stays below the differences between neighbouring inputs and an ordinary input remembered, mis-ordered or mis-weighted is observable), the other B histories are wild (any regime per chunk, every 7th prefix value ×10^6, non-flat suffix). In all stages the instance that saw the whole history is compared with a fresh instance fed only the suffix at every suffix length from n (n+1) on: exactly for Minimum, Maximum, FastStochastic; tau(t)·M for the accumulating ones (sqrt(tau)·M on the SD scale), × the condition number of the suffix reference for ratios (gate 1e6). Non-trivial = non-empty prefix. Stage 2b (dyadic spikes): 240 (quick) / 6000 streams of integer prices 1..8 for SMA, WMA, SD, MAD, BB, ROC, ER with periods 1, 2, 4, 8, the prefix containing spikes of 2^18..3·2^20 and ending in one of 3·2^20 (every intermediate below 53 bits; the precondition is re-checked on the case itself, so a shrunk case that leaves the class is judged with the ordinary tolerance), the suffix integer again and in two thirds of the cases quiet (one level with an occasional +1): the long-lived instance's arithmetic is exact there, so both outputs must agree to 1e-9 of the SUFFIX magnitude (state sized from the all-time magnitude shows). Stage 2c (micro-drift bars): 120 / 3000 streams of one-price bars creeping by 1..9e-10 relative per bar with varying volume, periods 1..6, for MFI, CCI, FastStochastic.";
